@@ -43,7 +43,7 @@ ASSUMPTIONS = ['selections of zero frames are excluded (init_arrays documents > 
                'VSINGL reserved operands are not generated; channel identifiers are ASCII and unique within the CHANNEL set',
                'the physical layer (C01, C02) and the table layer (C03) are trusted for the shapes used here'] + c03.ASSUMPTIONS[:2]
 SHARDS = {'quick': 4, 'thorough': 16}
-REQUIRED_CLASSES = {'>=2-frame-types-interleaved': 1, 'multi-dimensional-channel': 1, 'empty-iflr': 1, 'slice-step>1': 1, 'slice-negative-step': 1, 'sample': 1,
+REQUIRED_CLASSES = {'>=2-frame-types-interleaved': 1, 'multi-dimensional-channel': 1, 'empty-iflr': 1, 'channel-identifier-shared-by-two-frame-types': 1, 'slice-step>1': 1, 'slice-negative-step': 1, 'sample': 1,
                     'channel-subset-with-gap': 1, 'repeat-populate-different-selection': 1, 'populate-all': 1}
 
 SIG_VSINGL = 'value:VSINGL-scale'
@@ -133,6 +133,8 @@ class PassState:
         cc.cls('vector-channel', any(len(c['dims']) == 1 and c['dims'][0] > 1 for f in fr for c in f['channels']))
         cc.cls('empty-iflr', any(r['kind'] == 'iflr' and r['channels'] is None for r in init['records']))
         cc.cls('empty-iflr-of-a-frame-type', any(f['empty'] for f in fr))
+        idents = [c['name'][2] for f in fr for c in f['channels']]
+        cc.cls('channel-identifier-shared-by-two-frame-types', len(set(idents)) < len(idents))
         cc.cls('encrypted-iflr', any(r['kind'] == 'raw' and not r['eflr'] for r in init['records']))
         cc.cls('frame-numbers-not-sequential', any([r['number'] for r in f['rows']] != list(range(1, len(f['rows']) + 1)) for f in fr))
         cc.cls('frame-spans>=2-segments', any(self.model['records'][r['record']]['segments'] >= 2 for f in fr for r in f['rows']))
